@@ -60,6 +60,13 @@ CHECKS = {
             'ascending order).',
             'Per-batch scores of the model come from the implementation scorer applied to model batches (scoring is decided by C05). '
             'gzip / multi-file inputs not generated.', 'DESIGN.md §3 C08'),
+    'C09': ('owned schedules (Hypothesis, in-process pools executing tasks in generated permutations / threads) + real pathos pools in fresh processes with seeded per-task delays + generated PYTHONHASHSEED reruns; oracle: equality of complete outputs',
+            'Exploration: (1) generated frames/configurations/schedules - triplets under a pool that executes tasks in a generated '
+            'permutation over 1-16 logical workers or real threads must equal the inline pool; (2) the real CLI with --num_threads in '
+            '{1,2,4,8,16} while every scoring call in the forked workers is delayed by a seeded hash (completion orders and worker pids are '
+            'logged and counted); (3) the same command under generated hash seeds chosen so that set iteration orders differ. '
+            'pairwise_ranks.tsv rows must be identical across all runs of an input.',
+            'Real interleavings are sampled, not enumerated; tie order inside the output file is not constrained.', 'DESIGN.md §3 C09'),
 }
 
 NOT_YET = 'check not built yet in this commit (work in progress; planned in DESIGN.md §3)'
